@@ -69,6 +69,12 @@ func checkCase(c Case) (out evid.Outcome) {
 	var regs []*regState
 	sawHdrOnStatic := false
 	autoHead := false
+	// blind: a registration for several methods was refused half way; which of
+	// its methods stand is not known to the mirror any more. From then on a
+	// request is held against the same request with one more leading slash,
+	// which never takes the shortcut.
+	blind := false
+	ranUID := -1
 	for step, op := range c.Ops {
 		switch op.K {
 		case "autohead":
@@ -82,8 +88,10 @@ func checkCase(c Case) (out evid.Outcome) {
 			rs := &regState{m: op.M, r: op.R, leaves: map[string]route.Leaf{}}
 			perr := func() (err interface{}) {
 				defer func() { err = recover() }()
+				uid := step
 				hf := func(ctx flamego.Context) {
 					ran = idx
+					ranUID = uid
 					got = map[string]string{}
 					for k, v := range ctx.Params() {
 						got[k] = v
@@ -122,7 +130,9 @@ func checkCase(c Case) (out evid.Outcome) {
 					// refused as a whole: the history goes on without it
 					continue
 				}
-				return out // (it may have been taken for some of its methods)
+				blind = true // (it may have been taken for some of its methods)
+				out.Classes = append(out.Classes, "refused-half-way")
+				continue
 			}
 			ast, err := rt.Parse(op.R)
 			if err != nil {
@@ -163,10 +173,25 @@ func checkCase(c Case) (out evid.Outcome) {
 				hdr.Add(kv[0], kv[1])
 			}
 			ran, nf, got = -1, false, nil
+			ranUID = -1
 			rec := httptest.NewRecorder()
 			hreq := rt.Req{M: op.M, P: op.P, Wire: op.W}.HTTP()
 			hreq.Header = hdr
 			f.ServeHTTP(rec, hreq)
+			if blind {
+				first, firstNF := ranUID, nf
+				ran, nf, got, ranUID = -1, false, nil, -1
+				slashed := rt.Req{M: op.M, P: "/" + op.P}.HTTP()
+				slashed.Header = hdr
+				f.ServeHTTP(httptest.NewRecorder(), slashed)
+				if first != ranUID || firstNF != nf {
+					return fail(out, "shortcut-diverges", "step %d: %s %q headers %v: ServeHTTP ran the handler registered at step %d (not-found=%v), the same request with one more leading slash - full tree matching - ran the one of step %d (not-found=%v); history %s",
+						step, op.M, op.P, op.Q, first, firstNF, ranUID, nf, showOps(c.Ops[:step+1]))
+				}
+				out.NonTrivial = true
+				out.Classes = append(out.Classes, "after-a-registration-refused-half-way")
+				continue
+			}
 			// mirror
 			wantIdx := -1
 			var wantParams route.Params
@@ -356,6 +381,21 @@ func genCase(t *rapid.T) Case {
 		if rapid.IntRange(0, 14).Draw(t, "ah") == 0 {
 			c.Ops = append(c.Ops, Op{K: "autohead", On: rapid.IntRange(0, 2).Draw(t, "ahon") > 0})
 			continue
+		}
+		if len(regs) > 0 && rapid.IntRange(0, 11).Draw(t, "conflict") == 0 {
+			// Any on a path that is taken for one method already: refused when it
+			// gets there, after some methods have been registered
+			h := regs[rapid.IntRange(0, len(regs)-1).Draw(t, "cf")]
+			if len(expand(h.m)) == 1 && h.m == strings.ToUpper(h.m) {
+				c.Ops = append(c.Ops, Op{K: "reg", M: "any", R: h.r})
+				// and requests for that very path right away, with methods in front
+				// of and behind the taken one
+				pth := "/" + strings.Join(gen.Instance(t, rt.Deriv(h.r), false), "/")
+				for _, m := range []string{"GET", "TRACE", h.m} {
+					c.Ops = append(c.Ops, Op{K: "req", M: m, P: pth})
+				}
+				continue
+			}
 		}
 		switch {
 		case k < 3 || len(regs) == 0: // register
